@@ -117,6 +117,7 @@ type Run struct {
 	violCount  map[string]int
 	Solver     map[string]*SolverStats
 	EngineErrs []string
+	InconclLabels map[string]int
 	stop       bool
 	active     map[int]string
 	started    time.Time
@@ -157,6 +158,7 @@ func NewRun(prog *ssa.Program, module string, cfg Config) *Run {
 		violCount: map[string]int{}, Solver: map[string]*SolverStats{}}
 	r.cond = sync.NewCond(&r.mu)
 	r.active = map[int]string{}
+	r.InconclLabels = map[string]int{}
 	return r
 }
 
@@ -508,6 +510,9 @@ func (ex *Explorer) assertCond(i *interpreter, c *Term, label string, where stri
 		j.mu.Lock()
 		j.Inconcl++
 		j.mu.Unlock()
+		ex.run.mu.Lock()
+		ex.run.InconclLabels[j.Harness+"|"+label]++
+		ex.run.mu.Unlock()
 		if ex.run.Cfg.Debug {
 			fmt.Fprintf(os.Stderr, "INCONCLUSIVE %s label=%s at %s\n", j.Key(), label, where)
 		}
